@@ -275,6 +275,7 @@ def run(prog: Program, rep: Report, tier: str):
                 t[2] and t[2][0] == ("self", "num_repeats"))
             rep.decide(kw_ok, "G8.repeat-before-split", fi, "repeat", "repeat_interleave(num_repeats)",
                        "repeats is not self.num_repeats", line=fa.line(rn), clause="C12.5", nontrivial=False)
+    rank_defaults(prog, rep, "C12.3")
     names.check(prog, rep, FILES, clause="C12.G1", floor=15)
 
 
@@ -456,3 +457,60 @@ def padding_rule(prog: Program, rep: Report):
                         ok, why = True, "k = (p + n - 1) // n"
                 rep.decide(ok, "G6.padding-sufficient", fi, "wrap-around", why, why, line=x.lineno, clause="C12.3")
     rep.floor("wrap-around padding sites", found, 0)
+
+
+def rank_defaults(prog: Program, rep: Report, clause: str, classes=("ClassBalancedSampler", "WeightedSampler", "SemiSampler")):
+    """an explicitly given rank / world size is what the sampler uses"""
+    rep.rule("G7.given-rank-used", "a sampler constructor that takes rank / world_size with a None default stores the given value "
+             "when one is given and the process-group query only otherwise ('rank or get_rank()', 'rank if rank is not None else "
+             "get_rank()'); 'rank and get_rank()' does the opposite: every explicit rank >= 1 is replaced by the query's answer "
+             "(0 without a process group), so all replicas draw rank 0's slice")
+    n = 0
+    for cname in classes:
+        C = prog.cls(cname, required=False)
+        init = C.methods.get("__init__") if C is not None else None
+        if init is None:
+            continue
+        ps = set(init.params())
+        me = init.params()[0]
+        for st in ast.walk(init.node):
+            if not (isinstance(st, ast.Assign) and len(st.targets) == 1 and isinstance(st.targets[0], ast.Attribute)
+                    and isinstance(st.targets[0].value, ast.Name) and st.targets[0].value.id == me):
+                continue
+            attr = st.targets[0].attr
+            if attr not in ("rank", "world_size", "num_replicas") or attr not in ps:
+                continue
+            n += 1
+            v = st.value
+            ok = None
+            why = f"self.{attr} = {ast.unparse(v)[:60]}: another construction, not decided"
+            if isinstance(v, ast.BoolOp) and any(isinstance(x, ast.Name) and x.id == attr for x in v.values):
+                first_is_param = isinstance(v.values[0], ast.Name) and v.values[0].id == attr
+                if isinstance(v.op, ast.Or) and first_is_param:
+                    ok, why = True, f"self.{attr} = {attr} or <query>"
+                elif isinstance(v.op, ast.And):
+                    ok = False
+                    why = (f"self.{attr} = {ast.unparse(v)[:60]} (line {st.lineno}): 'and' yields the query's answer exactly when "
+                           f"a {attr} was given (and the falsy given value otherwise) - an explicit {attr} is ignored")
+            elif isinstance(v, ast.Name) and v.id == attr:
+                ok, why = True, f"self.{attr} = {attr}"
+            elif isinstance(v, ast.IfExp):
+                t, b, o = v.test, v.body, v.orelse
+                is_p = lambda e: isinstance(e, ast.Name) and e.id == attr
+                none_test = isinstance(t, ast.Compare) and len(t.ops) == 1 and is_p(t.left) and \
+                    isinstance(t.comparators[0], ast.Constant) and t.comparators[0].value is None
+                if none_test and isinstance(t.ops[0], ast.Is):
+                    ok = is_p(o) and not is_p(b)
+                elif none_test and isinstance(t.ops[0], ast.IsNot):
+                    ok = is_p(b) and not is_p(o)
+                elif is_p(t):
+                    ok = is_p(b) and not is_p(o)
+                elif isinstance(t, ast.UnaryOp) and isinstance(t.op, ast.Not) and is_p(t.operand):
+                    ok = is_p(o) and not is_p(b)
+                if ok is not None:
+                    why = (f"self.{attr} takes the given {attr} when one is given" if ok else
+                           f"self.{attr} = {ast.unparse(v)[:70]} (line {st.lineno}): the given {attr} is used exactly when none "
+                           f"was given - an explicit {attr} is replaced by the process-group query")
+            rep.decide(ok, "G7.given-rank-used", init, f"{cname}.{attr}", why, why, line=st.lineno, clause=clause, nontrivial=False)
+    if n == 0:
+        rep.unk("G7.given-rank-used", FILES[0], "no-site", "no 'self.rank = ...' with a rank parameter found", clause=clause)
